@@ -3,6 +3,7 @@ C07 — the header stores behave as an append/rollback log and survive reopening
 Property theorems only; lemmas live in Neutrino/Lemmas/Store*.lean.
 -/
 import Neutrino.Lemmas.StoreFault
+import Neutrino.Lemmas.IndexBuckets
 namespace Neutrino.Store
 
 /-- **Refinement to a plain pair of lists**, for every operation from every
@@ -122,7 +123,72 @@ theorem C07_failed_filter_append_unchanged (d : Durable) (l : Log) (fids : List 
     have := writeFilters_fault d l fids last k fs a hrep hroom (fun _ => hlast)
     simpa [exec, hft, he, hg, Log.apply] using this
 
+/-- **The two-place bbolt layout of the index is invisible.**  The model's
+index `Db` is a plain map; the code keeps an entry either directly in the root
+bucket (databases written by older versions) or in a sub-bucket named by the
+hash prefix (every new entry), pre-creating all sub-buckets at open.  For every
+split of the entries over the two places in which no hash is stored twice, and
+every naming of buckets `pre`: opening creates the missing buckets without
+changing any answer; `addHeaders`' loop cannot fail on a missing bucket and
+writes what `Db.addHeaders` writes (for hashes the root bucket does not hold —
+the callers never append a hash that is already stored); `deleteHeaderEntries`
+of indexed hashes succeeds and removes what `Db.delAll` removes, wherever each
+hash was kept; all of this preserves "no hash stored twice" and "every bucket
+exists".  Hence every theorem about `Db` holds of the code's layout, legacy
+entries included. -/
+theorem C07_index_layout (pre : Nat → Nat) (b : Buckets) (db : Db)
+    (hd : b.Disjoint pre) (hr : b.Refines pre db) :
+    (b.ensure.Ready ∧ b.ensure.Disjoint pre ∧ b.ensure.Refines pre db) ∧
+    (b.Ready → ∀ ids s, (∀ id ∈ ids, b.root id = none) →
+        ∃ b', Buckets.addAll pre b ids s = some b' ∧ b'.Ready ∧ b'.Disjoint pre ∧
+          b'.Refines pre (Db.addHeaders.go db ids s)) ∧
+    (∀ ids, (∀ id ∈ ids, db.height? id ≠ none) →
+        ∃ b', b.delEntries pre ids = some b' ∧ (b.Ready → b'.Ready) ∧ b'.Disjoint pre ∧
+          b'.Refines pre (db.delAll ids)) := by
+  refine ⟨⟨Buckets.ready_ensure b, Buckets.disjoint_ensure pre b hd, fun id => ?_⟩, ?_, ?_⟩
+  · rw [Buckets.get_ensure]; exact hr id
+  · intro hready ids s hroot
+    obtain ⟨h1, h2⟩ := Buckets.addAll_ready pre ids b s hready
+    obtain ⟨h3, h4⟩ := Buckets.refines_putAll pre ids b db s hd hr hroot
+    exact ⟨_, h1, h2, h3, h4⟩
+  · intro ids hall
+    obtain ⟨b', hb', hd', hr'⟩ := Buckets.refines_delAll pre b db ids hd hr hall
+    exact ⟨b', hb', fun hready => Buckets.ready_delEntries pre b b' ids hready hb', hd', hr'⟩
+
+/-- the side condition is needed, and says what it seems to: a hash kept in both
+places survives its own deletion (the root copy goes, the sub-bucket copy
+answers the next lookup).  Unreachable: new entries only go to sub-buckets, and
+no caller appends a hash that is still stored. -/
+theorem C07_index_layout_needs_disjoint :
+    let b : Buckets := { root := fun j => if j = 1 then some 5 else none,
+                         sub := fun _ => some (fun j => if j = 1 then some 7 else none) }
+    ((b.delEntries (fun _ => 0) [1]).map (fun b' => b'.get (fun _ => 0) 1)) = some (some 7) := by
+  decide
+
+/-- **What `C07_index_layout` relies on in headerfs/index.go** (regenerated from
+the working tree on every run): `getHeaderEntry` reads the sub-bucket and falls
+back to the root bucket both when the bucket and when the key is missing;
+`addHeaders` writes entries only through `putHeaderEntryInBucket` into the
+bucket named by the hash prefix and puts nothing but the tip key into the root
+bucket; `deleteHeaderEntries` deletes from the root bucket exactly the hashes
+it finds there and the others from their sub-buckets, failing on a missing
+bucket; `newHeaderIndex` runs `ensureIndexSubBuckets`, which creates every
+two-byte prefix. -/
+theorem C07_index_source_shape :
+    Gen.Store.indexGetSubThenRoot = true ∧ Gen.Store.indexFallbackReadsRoot = true ∧
+    Gen.Store.indexAddIntoSubBucket = true ∧ Gen.Store.indexPutKeyIsHash = true ∧
+    Gen.Store.indexDeleteRootElseSub = true ∧ Gen.Store.indexOpenEnsuresSubBuckets = true ∧
+    Gen.Store.indexEnsureAllPrefixes = true := by decide
+
 /-! Non-vacuity. -/
+/-- a database written by an older version (entry 1 in the root bucket), extended by this one (entry 2) -/
+example :
+    let b : Buckets := { root := fun j => if j = 1 then some 1 else none,
+                         sub := fun p => if p = 0 then some (fun j => if j = 2 then some 2 else none) else none }
+    (b.get (fun j => j % 2) 1, b.get (fun j => j % 2) 2, b.get (fun j => j % 2) 3,
+     (b.delEntries (fun j => j % 2) [1, 2]).map (fun b' => (b'.get (fun j => j % 2) 1, b'.get (fun j => j % 2) 2)),
+     (b.delEntries (fun j => j % 2) [3]).isSome) =
+    (some 1, some 2, none, some (none, none), false) := by rfl
 example : ContractAll Log.init [.wb [1, 2, 3], .wf [1, 2], .rb 1, .rf, .rollto 1] := by
   simp [ContractAll, Contract, Log.init, Log.apply]
 example : (exec init (.wb [1, 2]) (.fault .shortwrite 0 100)).2 = .err := by decide
